@@ -216,7 +216,9 @@ class Driver:
         p = subprocess.run([self.path], input=data, capture_output=True, text=True, timeout=timeout)
         if p.returncode != 0:
             raise RuntimeError(f"lean driver failed rc={p.returncode}: {p.stderr[-400:]}")
-        lines = p.stdout.splitlines()
+        lines = p.stdout.split("\n")
+        if lines and lines[-1] == "":
+            lines.pop()
         if len(lines) != len(requests):
             raise RuntimeError(f"lean driver returned {len(lines)} replies for {len(requests)} requests")
         return [json.loads(l) for l in lines]
